@@ -29,6 +29,14 @@ def draw_sched(rng, grans=('sync', 'line', 'opcode'), weights=None, expected_ste
   return d
 
 
+def draw_stalls(rng, expected_steps, rate=0.5, n=(1, 4), durations=(1000, 50000, 300000, 2000000)):
+  """the "slow or stalled node" fault: at a few drawn pre-emption points the running thread
+  is descheduled for a drawn amount of virtual time (plain data: step index -> microseconds)"""
+  if rng.random() >= rate:
+    return {}
+  return {str(rng.randrange(1, max(2, expected_steps))): rng.choice(list(durations)) for _ in range(rng.randrange(*n))}
+
+
 def make_policy(desc, rng):
   kind = desc.get('policy', 'sticky')
   if kind == 'sticky':
